@@ -308,7 +308,14 @@ fn bounded_weights(rng: &mut Rng, s: &SizeInfo) -> Vec<usize> {
     let t = s.t();
     let nb = s.blocks;
     let mut w = vec![0usize; nb];
-    match rng.below(12) {
+    match rng.below(13) {
+        12 => {
+            // every block the same small weight (1, 2 or 3 errors in each block at once)
+            let small = rng.range(1, 3.min(t));
+            for x in w.iter_mut() {
+                *x = small;
+            }
+        }
         0..=2 => {
             for x in w.iter_mut() {
                 *x = t;
@@ -1745,6 +1752,13 @@ fn gen_c09(ctx: &Ctx, rng: &mut Rng, i: u64) -> Trace {
     let producer = producer_for_size(rng, s, 5);
     let mut faults = Vec::new();
     beyond_radius_faults(ctx, rng, s, &mut faults);
+    // several blocks uncorrectable / specially damaged at once
+    if s.blocks > 1 && rng.chance(1, 4) {
+        beyond_radius_faults(ctx, rng, s, &mut faults);
+        if rng.chance(1, 3) {
+            beyond_radius_faults(ctx, rng, s, &mut faults);
+        }
+    }
     Trace { prop: "C09".into(), producer, faults }
 }
 
@@ -1798,10 +1812,36 @@ fn gen_c05(ctx: &Ctx, rng: &mut Rng, i: u64) -> Trace {
             // or rides in a valid symbol (padded to a size's data length, EC computed by the real encoder)
             let data = if rng.chance(2, 3) { fabricate_stream(rng) } else { gen_stream(rng) };
             if rng.chance(1, 3) {
-                if let Some(s) = SIZES.iter().filter(|s| s.n_data >= data.len()).min_by_key(|s| s.n_data) {
+                let fitting: Vec<&SizeInfo> = SIZES.iter().filter(|s| s.n_data >= data.len()).collect();
+                let chosen = if fitting.is_empty() {
+                    None
+                } else if rng.chance(1, 2) {
+                    fitting.iter().min_by_key(|s| s.n_data).copied()
+                } else {
+                    Some(*rng.pick(&fitting))
+                };
+                if let Some(s) = chosen {
                     let mut d = data.clone();
+                    if rng.chance(1, 4) {
+                        // right-aligned: the construct ends exactly at the end of the data region
+                        let fill = s.n_data - d.len();
+                        let mut pre: Vec<u8> = (0..fill).map(|_| rng.range(1, 128) as u8).collect();
+                        pre.extend_from_slice(&d);
+                        d = pre;
+                    }
+                    let pad_mode = rng.below(3);
                     while d.len() < s.n_data {
-                        d.push(if rng.chance(1, 2) { 129 } else { rng.byte() });
+                        d.push(match pad_mode {
+                            0 => 129,
+                            1 => rng.byte(),
+                            _ => {
+                                if rng.chance(1, 2) {
+                                    129
+                                } else {
+                                    rng.byte()
+                                }
+                            }
+                        });
                     }
                     faults.push(Fault::new("snd_fabricate", Op::SndSet { pos: 0, val: d[0] }));
                     return Trace { prop: "C05".into(), producer: Producer::Raw { size: s.idx, data: d }, faults };
